@@ -671,6 +671,8 @@ def c06_direct(case):
 @prop('C06')
 def c06(ctx):
     ob, dis, details = proof_obligations(ctx, 'C06')
+    # inputs that differ have different memo keys (nil interface / struct{}{} / typed zeros through an `any` parameter)
+    expected_probes(ctx, ['memo-keys/'])
     cases = load_cases(ctx)
     if cases is not None:
         stage_stats(ctx, cases, s3_compare, 'S3')
@@ -1534,6 +1536,8 @@ def c20(ctx):
             'value models): verdict, requested inputs and every visible leaf of the built struct compared with FDesc.inputs/fillerCall; '
             '(4) SaveTo: random pointer lists (repeated types). distinct = distinct signatures / shapes / provider lists')
     ob, dis, details = proof_obligations(ctx, 'C20')
+    # the signature a Reflective provider reports is the one it was given, also when several are described from one table
+    expected_probes(ctx, ['reflective-args/'])
     st = collections.Counter(); distinct = set()
     q = ctx.tier == 'quick'
     helper_compare(ctx, 'curry', 3000 if q else 60000, st, distinct)
@@ -1635,6 +1639,7 @@ def c19(ctx):
             'chain and invoked: full trace of the members and every delivered value compared with the direct invocation, a non-nil error '
             'either delivered as a value or, when terminal, stopping the outer chain before its final function; distinct = provider lists')
     ob, dis, details = proof_obligations(ctx, 'C19')
+    expected_probes(ctx, ['reflective-args/'])
     n = 1500 if ctx.tier == 'quick' else 20000
     cases, model = condense_run(ctx, n)
     st = collections.Counter(); distinct = set()
@@ -1694,7 +1699,7 @@ def c19(ctx):
     ctx.cov['distinct_nontrivial'] = len(distinct)
     ctx.cov['traces_validated_against_impl'] = st['pair-same']
     ctx.cov['outcomes'] = dict(st)
-    ctx.assumptions += ['*Debugging parameters inside the condensed collection (bypassDebug plumbing) are not generated; covered by the repository test only',
+    ctx.assumptions += ['one generated collection in five has *Debugging consumers (Condense then returns carrier + condensed provider; flows are read from the condensed provider proper and the direct twin gets a *Debugging consumer in front, as Condense puts one there); the content of the Debugging value is not compared',
                         'the public Collection.UpFlows()/DownFlows() on an unbound collection cannot know which member is final; the flows checked are the ones Condense binds with',
                         'interface-typed received (upward) parameters are not generated']
     if len(ctx.violations) > 5:
